@@ -140,6 +140,7 @@ func cmdDispatch(args []string) {
 	coqOut := fs.String("coq", "", "Coq output (vm_compute route)")
 	coqN := fs.Int("coqn", 10, "number of cases in the Coq output")
 	obsOut := fs.String("obs", "obs.jsonl", "observation output")
+	repeat := fs.Int("repeat", 0, "C20: run every case this many times (fresh definition each time) and compare help text, Dispatch output and error")
 	maskT := fs.String("mask", "mask_all", "comparison mask of the vm_compute sample (Coq term)")
 	dmaskT := fs.String("dmask", "dmask_all", "dispatch comparison mask of the vm_compute sample (Coq term)")
 	fs.Parse(args)
@@ -167,6 +168,15 @@ func cmdDispatch(args []string) {
 			skipped++
 			prog = nil
 			continue
+		}
+		for k := 1; k < *repeat && d.Panic == "" && !d.Hang && d.dterm != nil; k++ {
+			again := runDispatch(*seed, prog, argv)
+			if again.HelpText != d.HelpText || again.DWriter != d.DWriter || again.DErr != d.DErr {
+				d.Oracle["C20"] = append(d.Oracle["C20"], OracleHit{Key: "help-nondeterministic",
+					What: fmt.Sprintf("run %d of the same program and arguments differs in help text / Dispatch output: first help=%q writer=%q err=%q, again help=%q writer=%q err=%q",
+						k+1, d.HelpText, d.DWriter, d.DErr, again.HelpText, again.DWriter, again.DErr)})
+				break
+			}
 		}
 		if d.Panic != "" || d.Hang || d.dterm == nil {
 			enc.Encode(d)
